@@ -36,7 +36,7 @@ pub fn fld(name: &str, lo: u32, w: u32, ty: FieldTy, access: Access) -> Field {
 }
 
 pub fn lay(bits: u32, fields: Vec<Field>) -> Layout {
-    Layout { name: "S".into(), base_bits: bits, default: None, default_colon: false, debug: false, fields, enums: vec![], inners: vec![], debug_first: false, vis: 0, decoys: 0 }
+    Layout { name: "S".into(), base_bits: bits, default: None, default_colon: false, debug: false, fields, enums: vec![], inners: vec![], debug_first: false, vis: 0, decoys: 0, derives: 0 }
 }
 
 pub fn uty(w: u32) -> FieldTy {
@@ -539,6 +539,173 @@ pub fn sys_custom(tier: Tier) -> Vec<Layout> {
     out
 }
 
+/// declarations with *many* fields (up to one per bit of a 128-bit base): counts beyond anything the random
+/// generator produces (it stops at 5-12 fields). Field k is `f<k>`, so names with two- and three-digit indices
+/// occur; every other declaration lists its fields from the top bit downwards.
+pub fn sys_many_fields(access: Access) -> Vec<Layout> {
+    let mut out = Vec::new();
+    for (b, w) in [(128u32, 1u32), (64, 1), (33, 1), (17, 1), (9, 1), (127, 1), (128, 4), (64, 2), (100, 5), (32, 1), (65, 5)] {
+        let n = b / w;
+        for rev in [false, true] {
+            let mut fields = Vec::new();
+            for k in 0..n {
+                let lo = if rev { (n - 1 - k) * w } else { k * w };
+                let ty = if w == 1 && k % 2 == 0 { FieldTy::Bool } else { uty(w) };
+                fields.push(fld(&format!("f{}", k), lo, w, ty, access));
+            }
+            out.push(lay(b, fields));
+        }
+    }
+    // mixed widths until the base is full (widths cycle), 128- and 64-bit bases and an arbitrary one
+    for b in [128u32, 64, 90] {
+        let cyc = [1u32, 2, 3, 5, 8, 1, 4, 16, 7];
+        let mut fields = Vec::new();
+        let mut lo = 0;
+        let mut k = 0;
+        while lo < b {
+            let w = cyc[k % cyc.len()].min(b - lo);
+            let ty = if w == 1 && k % 3 == 0 { FieldTy::Bool } else if w == 8 && k % 2 == 0 { FieldTy::INat { bits: 8 } } else { uty(w) };
+            fields.push(fld(&format!("f{}", k), lo, w, ty, access));
+            lo += w;
+            k += 1;
+        }
+        out.push(lay(b, fields));
+    }
+    out
+}
+
+/// range lists with many entries (16, 32, 64 single bits; 16 four-bit runs), ascending / descending / permuted,
+/// unsigned and signed; and list arrays whose elements have 8 entries each
+pub fn sys_long_lists() -> Vec<Layout> {
+    let mut out = Vec::new();
+    let mk = |name: &str, rs: Vec<(u32, u32)>, ty: FieldTy, arr: Option<ArrayDecl>| Field {
+        name: name.into(),
+        kw_bit: false,
+        list: true,
+        ranges: rs.iter().map(|(lo, hi)| Rng { lo: *lo, hi: *hi, short: lo == hi }).collect(),
+        array: arr,
+        ty,
+        access: Access::RW,
+        arg_order: 0,
+        opt_path: 0,
+        huge: None,
+        zero_pad: false,
+    };
+    // (base, number of entries, entry width, distance between entry starts, first start)
+    for (b, n, ew, dist, first) in [(64u32, 16u32, 1u32, 4u32, 0u32), (32, 16, 1, 2, 1), (128, 32, 1, 4, 3), (128, 64, 1, 2, 0), (128, 64, 1, 2, 1), (128, 16, 4, 8, 0), (100, 32, 1, 3, 2), (65, 16, 2, 4, 1), (128, 8, 8, 16, 8), (64, 32, 1, 2, 0)] {
+        let w = n * ew;
+        let asc: Vec<(u32, u32)> = (0..n).map(|k| (first + k * dist, first + k * dist + ew - 1)).collect();
+        if asc.last().unwrap().1 >= b {
+            continue;
+        }
+        let mut desc = asc.clone();
+        desc.reverse();
+        // a fixed permutation: k -> k * 7 mod n (n is a power of two, 7 is odd)
+        let perm: Vec<(u32, u32)> = (0..n).map(|k| asc[((k * 7 + 3) % n) as usize]).collect();
+        let used: u128 = asc.iter().fold(0u128, |m, (lo, hi)| m | (mask(hi - lo + 1) << lo));
+        for (o, rs) in [asc, desc, perm].into_iter().enumerate() {
+            let mut tys = vec![uty(w)];
+            if is_native_width(w) {
+                tys.push(FieldTy::INat { bits: w });
+            }
+            for ty in tys {
+                let mut fields = vec![mk("ll", rs.clone(), ty, None)];
+                // a neighbour in the lowest free run (so that untouched bits are observable through a getter too)
+                let free = !used & mask(b);
+                if free != 0 {
+                    let lo = free.trailing_zeros();
+                    let mut len = 0;
+                    while lo + len < b && (free >> (lo + len)) & 1 == 1 && len < 64 {
+                        len += 1;
+                    }
+                    fields.push(fld("nb", lo, len, uty(len), Access::RW));
+                }
+                if o == 2 {
+                    fields.reverse();
+                }
+                out.push(lay(b, fields));
+            }
+        }
+    }
+    // list arrays: 8 single-bit entries per element, two elements interleaving (stride 1), four-element
+    // version with 4 entries, and 16 entries per element at stride 64
+    let ev8: Vec<(u32, u32)> = (0..8).map(|k| (2 * k, 2 * k)).collect();
+    let mut od8 = ev8.clone();
+    od8.reverse();
+    for b in [16u32, 32, 64, 128, 17, 100] {
+        out.push(lay(b, vec![mk("la", ev8.clone(), uty(8), Some(ArrayDecl { count: 2, stride: Some(1), colon: false }))]));
+        out.push(lay(b, vec![mk("la", od8.clone(), FieldTy::INat { bits: 8 }, Some(ArrayDecl { count: 2, stride: Some(1), colon: false }))]));
+    }
+    let q4: Vec<(u32, u32)> = (0..4).map(|k| (4 * k, 4 * k)).collect();
+    for b in [16u32, 64, 128, 23] {
+        out.push(lay(b, vec![mk("la", q4.clone(), uty(4), Some(ArrayDecl { count: 4, stride: Some(1), colon: false }))]));
+    }
+    // more than 64 entries in one list: 100 and 128 single bits (descending), and four multi-bit entries followed by
+    // 66 single bits, ascending and with the multi-bit entries last
+    {
+        let hundred: Vec<(u32, u32)> = (0..100).map(|k| (k, k)).collect();
+        let mut rev128: Vec<(u32, u32)> = (0..128).map(|k| (k, k)).collect();
+        rev128.reverse();
+        out.push(lay(128, vec![mk("ll", hundred.clone(), uty(100), None), fld("nb", 100, 28, uty(28), Access::RW)]));
+        out.push(lay(100, vec![mk("ll", hundred, uty(100), None)]));
+        out.push(lay(128, vec![mk("ll", rev128.clone(), uty(128), None)]));
+        out.push(lay(128, vec![mk("ll", rev128, FieldTy::INat { bits: 128 }, None)]));
+        let mut mixed: Vec<(u32, u32)> = (0..4).map(|k| (8 * k, 8 * k + 3)).collect(); // 4 x 4 bits at 0, 8, 16, 24
+        mixed.extend((0..66).map(|k| (40 + k, 40 + k)));
+        out.push(lay(128, vec![mk("ll", mixed.clone(), uty(82), None), fld("nb", 4, 4, uty(4), Access::RW)]));
+        let mut mixed2 = mixed.clone();
+        mixed2.rotate_left(4);
+        out.push(lay(128, vec![mk("ll", mixed2, uty(82), None), fld("nb", 106, 22, uty(22), Access::RW)]));
+        let mut m3: Vec<(u32, u32)> = (0..70).map(|k| (k, k)).collect();
+        m3.push((80, 89));
+        out.push(lay(127, vec![mk("ll", m3, uty(80), None)]));
+    }
+    let e16: Vec<(u32, u32)> = (0..16).map(|k| (4 * k + 1, 4 * k + 1)).collect();
+    out.push(lay(128, vec![mk("la", e16.clone(), uty(16), Some(ArrayDecl { count: 2, stride: Some(64), colon: false }))]));
+    out.push(lay(128, vec![mk("la", e16, FieldTy::INat { bits: 16 }, Some(ArrayDecl { count: 3, stride: Some(1), colon: false }))]));
+    out
+}
+
+/// bitfields nested three and four levels deep (the random generator nests once), native and arbitrary bases,
+/// with an enum at the innermost level; `debug` on every level when asked for
+pub fn sys_deep_nesting(debug: bool) -> Vec<Layout> {
+    let mut out = Vec::new();
+    for (widths, pos) in [([8u32, 16, 32, 64], [4u32, 8, 16]), ([7, 13, 27, 65], [3, 9, 30]), ([9, 17, 33, 128], [8, 16, 95]), ([3, 8, 24, 32], [5, 16, 8])] {
+        // innermost: an enum in the low two bits, a bool on the top bit
+        let e = small_enum("L3E", 2, true);
+        let mut l3 = lay(widths[0], vec![fld("e", 0, 2, FieldTy::Enum { idx: 0, option: false }, Access::RW), fld("t", widths[0] - 1, 1, FieldTy::Bool, Access::RW)]);
+        l3.name = "L3".into();
+        l3.enums.push(e);
+        l3.debug = debug;
+        let mut l2 = lay(widths[1], vec![fld("lo", 0, pos[0], uty(pos[0]), Access::RW), fld("in3", pos[0], widths[0], FieldTy::Nested { idx: 0 }, Access::RW)]);
+        l2.name = "L2".into();
+        l2.inners.push(l3);
+        l2.debug = debug;
+        let mut l1 = lay(widths[2], vec![fld("in2", pos[1], widths[1], FieldTy::Nested { idx: 0 }, Access::RW), fld("b0", 0, 1, FieldTy::Bool, Access::RW)]);
+        l1.name = "L1".into();
+        l1.inners.push(l2.clone());
+        l1.debug = debug;
+        // three levels: the outer struct holds L2 directly
+        let mut o3 = lay(widths[2], vec![fld("n", pos[1], widths[1], FieldTy::Nested { idx: 0 }, Access::RW), fld("x", 0, pos[1].min(8), uty(pos[1].min(8)), Access::RW)]);
+        o3.inners.push(l2);
+        o3.debug = debug;
+        out.push(o3);
+        // four levels; the nested field also as a two-element array when it fits
+        let mut o4 = lay(widths[3], vec![fld("n", pos[2], widths[2], FieldTy::Nested { idx: 0 }, Access::RW), fld("x", 0, pos[2].min(64), uty(pos[2].min(64)), Access::RW)]);
+        o4.inners.push(l1.clone());
+        o4.debug = debug;
+        out.push(o4);
+        if !debug && 2 * widths[2] <= widths[3] {
+            let mut a = fld("na", 0, widths[2], FieldTy::Nested { idx: 0 }, Access::RW);
+            a.array = Some(ArrayDecl { count: 2, stride: None, colon: false });
+            let mut oa = lay(widths[3], vec![a]);
+            oa.inners.push(l1);
+            out.push(oa);
+        }
+    }
+    out
+}
+
 fn random(p: &Profile, seed: u64, stream: u64, n: usize) -> Vec<Layout> {
     sample_choices(seed, stream, n, 320).iter().map(|w| build_layout(p, w)).collect()
 }
@@ -553,6 +720,7 @@ pub fn corpus(prop: &str, tier: Tier, seed: u64) -> Vec<(usize, Layout)> {
     match prop {
         "C01" => {
             v.extend(sys_scalars(tier, Access::R));
+            v.extend(sys_many_fields(Access::R));
             let mut p = prof([3, 6, 4, 0, 0, 0, 0], [1, 0, 0, 0]);
             p.access = AccessMode::AllR;
             v.extend(random(&p, seed, 1, nrand / 2));
@@ -577,6 +745,9 @@ pub fn corpus(prop: &str, tier: Tier, seed: u64) -> Vec<(usize, Layout)> {
             v.extend(sys_lists(Tier::Quick).into_iter().step_by(5));
             v.extend(sys_wide_lists());
             v.extend(sys_multi_arrays());
+            v.extend(sys_many_fields(Access::RW));
+            v.extend(sys_long_lists());
+            v.extend(sys_deep_nesting(false));
         }
         "C03" => {
             v.extend(sys_arrays(tier));
@@ -593,9 +764,12 @@ pub fn corpus(prop: &str, tier: Tier, seed: u64) -> Vec<(usize, Layout)> {
             p.shapes = [1, 1, 0, 6];
             v.extend(random(&p, seed, 3, nrand / 3));
             v.extend(sys_lists(Tier::Quick).into_iter().filter(|l| l.fields.iter().any(|f| f.is_array())));
+            v.extend(sys_long_lists().into_iter().filter(|l| l.fields.iter().any(|f| f.is_array())));
+            v.extend(sys_deep_nesting(false).into_iter().filter(|l| l.fields.iter().any(|f| f.is_array())));
         }
         "C04" => {
             v.extend(sys_lists(tier));
+            v.extend(sys_long_lists());
             let mut p = prof([0, 5, 3, 2, 1, 1, 1], [1, 0, 4, 3]);
             p.force_shape = Some(2);
             p.access = AccessMode::Mixed;
@@ -607,6 +781,8 @@ pub fn corpus(prop: &str, tier: Tier, seed: u64) -> Vec<(usize, Layout)> {
         }
         "C05" => {
             v.extend(sys_signed(tier));
+            v.extend(sys_long_lists().into_iter().filter(|l| l.fields.iter().any(|f| matches!(f.ty, FieldTy::INat { .. }))));
+            v.extend(sys_many_fields(Access::RW).into_iter().filter(|l| l.fields.iter().any(|f| matches!(f.ty, FieldTy::INat { .. }))));
             let mut p = prof([1, 1, 1, 8, 0, 0, 0], [4, 2, 2, 1]);
             p.force_kind = Some(3);
             p.access = AccessMode::Mixed;
@@ -615,6 +791,7 @@ pub fn corpus(prop: &str, tier: Tier, seed: u64) -> Vec<(usize, Layout)> {
         }
         "C08" => {
             v.extend(sys_custom(tier));
+            v.extend(sys_deep_nesting(false));
             for (k, fk) in [4usize, 5, 6].iter().enumerate() {
                 let mut p = prof([1, 1, 0, 0, 4, 4, 3], [4, 2, 2, 1]);
                 p.force_kind = Some(*fk);
@@ -636,6 +813,10 @@ pub fn corpus(prop: &str, tier: Tier, seed: u64) -> Vec<(usize, Layout)> {
             p.access = AccessMode::Mixed;
             p.w_twin = true;
             v.extend(random(&p, seed, 4, nrand / 4));
+            // histories over many fields, long lists and deeply nested fields
+            v.extend(sys_many_fields(Access::RW).into_iter().step_by(2));
+            v.extend(sys_long_lists().into_iter().step_by(3));
+            v.extend(sys_deep_nesting(false).into_iter().step_by(2));
         }
         "C06" => {
             // every base width, every default form; half of them with fields
@@ -675,7 +856,7 @@ pub fn corpus(prop: &str, tier: Tier, seed: u64) -> Vec<(usize, Layout)> {
                     match form {
                         0 => {}
                         1 | 2 => {
-                            l.default = Some(DefaultDecl { value: val, named_const: false, radix: [10u8, 16, 2][k % 3], const_name: None });
+                            l.default = Some(DefaultDecl { value: val, named_const: false, radix: [10u8, 16, 2, 110, 116, 102][k % 6], const_name: None });
                             l.default_colon = form == 2;
                         }
                         _ => {
@@ -726,6 +907,9 @@ pub fn corpus(prop: &str, tier: Tier, seed: u64) -> Vec<(usize, Layout)> {
                     v.push(lay(b, fields));
                 }
             }
+            v.extend(sys_many_fields(Access::RW).into_iter().filter(|l| !l.base_native()));
+            v.extend(sys_long_lists().into_iter().filter(|l| !l.base_native()));
+            v.extend(sys_deep_nesting(false).into_iter().filter(|l| !l.base_native()));
         }
         "C13" => {
             let mut p = prof([3, 6, 4, 2, 2, 2, 1], [5, 3, 2, 1]);
@@ -792,6 +976,35 @@ pub fn corpus(prop: &str, tier: Tier, seed: u64) -> Vec<(usize, Layout)> {
                 }
                 v.push(lay(b, vec![fld("lo", 0, b / 2, uty(b / 2), Access::W), fld("hi", b / 2, b / 2, uty(b / 2), Access::RW)]));
             }
+            // long builder chains (up to 128 steps), long lists and deeply nested arguments; a default is added
+            // where the writable fields do not cover the base
+            for (k, mut l) in sys_many_fields(Access::RW).into_iter().chain(sys_long_lists()).chain(sys_deep_nesting(false)).enumerate() {
+                if k % 3 == 1 {
+                    for (j, f) in l.fields.iter_mut().enumerate() {
+                        if j % 3 == 2 {
+                            f.access = Access::W;
+                        }
+                    }
+                }
+                if k % 3 == 2 {
+                    // read-only and accessor-less fields between the writable ones (they take no builder step)
+                    for (j, f) in l.fields.iter_mut().enumerate() {
+                        match j % 5 {
+                            1 => f.access = Access::R,
+                            3 => f.access = Access::None,
+                            4 => f.access = Access::W,
+                            _ => {}
+                        }
+                    }
+                }
+                if !rules::builder_expected(&l) || k % 4 == 0 {
+                    let m = l.base_mask();
+                    l.default = Some(DefaultDecl { value: if k % 2 == 0 { m } else { m / 7 * 5 }, named_const: false, radix: 16, const_name: None });
+                }
+                if rules::builder_expected(&l) {
+                    v.push(l);
+                }
+            }
         }
         "C16" => {
             v.extend(sys_scalars(Tier::Quick, Access::RW).into_iter().filter(|l| l.fields.iter().any(|f| f.highest_bit() + 1 == l.base_bits)));
@@ -830,6 +1043,9 @@ pub fn corpus(prop: &str, tier: Tier, seed: u64) -> Vec<(usize, Layout)> {
                     v.push(lay(b, vec![mk(vec![(0, 3), (2, 5)], FieldTy::INat { bits: 8 }, None)]));
                 }
             }
+            v.extend(sys_many_fields(Access::RW).into_iter().step_by(3));
+            v.extend(sys_long_lists().into_iter().step_by(3));
+            v.extend(sys_deep_nesting(false).into_iter().step_by(3));
         }
         "C19" => {
             let mut p = prof([3, 5, 3, 3, 2, 2, 2], [5, 0, 2, 0]);
@@ -849,6 +1065,14 @@ pub fn corpus(prop: &str, tier: Tier, seed: u64) -> Vec<(usize, Layout)> {
                 v.push(l.clone());
                 l.default = Some(DefaultDecl { value: mask(b) / 3, named_const: false, radix: 16, const_name: None });
                 l.debug_first = b % 2 == 0;
+                v.push(l);
+            }
+            // many fields (one per bit of a 128-bit base), deeply nested debug bitfields
+            for mut l in sys_many_fields(Access::R).into_iter().step_by(2).chain(sys_deep_nesting(true)) {
+                if l.fields.iter().any(|f| f.is_array()) {
+                    continue;
+                }
+                l.debug = true;
                 v.push(l);
             }
             // a second readable view of exactly the same bits (alias under another name / as raw integer)
@@ -974,6 +1198,25 @@ pub fn enum_corpus(tier: Tier, seed: u64) -> Vec<(usize, EnumDecl)> {
                 v.push(EnumDecl { name: "E".into(), bits: n, variants, exhaustive: Exh::Conditional, colon: false, qualified: false, args_swapped: false });
             }
         }
+    }
+    // large variant counts (the random enums stop at 12 variants, the exhaustive ones at 2^8): hundreds of
+    // variants in arbitrary and native storage, declared in a scrambled order
+    for (n, count, mult) in [(9u32, 300u128, 77u128), (10, 1000, 333), (16, 700, 1237), (32, 400, 10_000_019), (64, 300, 0x9E37_79B9_7F4A_7C15), (12, 2500, 1111), (7, 127, 29)] {
+        let m = mask(n);
+        let variants: Vec<Variant> = (0..count)
+            .map(|k| Variant { name: format!("V{}", k), disc: Disc::Lit { value: (k * mult) & m, radix: [10u8, 16, 2, 8][(k % 4) as usize], underscore: k % 7 == 0 }, cfg: Cfg::None, style: 0 })
+            .collect();
+        v.push(EnumDecl { name: "E".into(), bits: n, variants, exhaustive: if n % 2 == 0 { Exh::False } else { Exh::Omitted }, colon: false, qualified: false, args_swapped: false });
+    }
+    {
+        // exhaustive over 9 bits (512 variants, scrambled), and the same under `conditional` with one compiled out
+        let m = mask(9);
+        let variants: Vec<Variant> = (0..=m).map(|k| Variant { name: format!("V{}", k), disc: Disc::Lit { value: (k * 77) & m, radix: 10, underscore: false }, cfg: Cfg::None, style: 0 }).collect();
+        v.push(EnumDecl { name: "E".into(), bits: 9, variants: variants.clone(), exhaustive: Exh::True, colon: false, qualified: false, args_swapped: false });
+        let mut c = variants;
+        c[300].cfg = Cfg::Never;
+        c[17].cfg = Cfg::Always;
+        v.push(EnumDecl { name: "E".into(), bits: 9, variants: c, exhaustive: Exh::Conditional, colon: false, qualified: false, args_swapped: true });
     }
     v.into_iter().enumerate().collect()
 }
